@@ -358,6 +358,12 @@ def with_eol(text, eol, eol_seed=0):
     return text.encode("ascii")
 
 
+def is_number_token(tok):
+    """a number of the ASC grammar: the four fields of a point (so that `( x y z r )` is recognised as a point and nothing else is)"""
+    import re
+    return re.fullmatch(r"[-+]?(\d+\.?\d*|\.\d+)([eE][-+]?\d+)?", tok) is not None
+
+
 class Convert(Suite):
     name = "c15.convert"
 
@@ -437,7 +443,7 @@ class Convert(Suite):
             tries += 1
             d = doc()
             text, toks = render(rng, d, layout=False)
-            idx = [i for i, t in enumerate(toks) if t == "(" and i + 5 < len(toks) and toks[i + 5] == ")" and toks[i + 1] not in ("(", "Color")]
+            idx = [i for i, t in enumerate(toks) if t == "(" and i + 5 < len(toks) and toks[i + 5] == ")" and all(is_number_token(x) for x in toks[i + 1:i + 5])]
             if not idx:
                 continue
             i = rng.choice(idx)
@@ -468,7 +474,7 @@ class Convert(Suite):
                 word = rng.choice(["", "", "+", "-"]) + rng.choice([base, base.upper(), base.capitalize(), "".join(rng.choice([c, c.upper()]) for c in base)])
                 d = doc()
                 text, toks = render(rng, d, layout=False)
-                idx = [i for i, t in enumerate(toks) if t == "(" and i + 5 < len(toks) and toks[i + 5] == ")" and toks[i + 1] not in ("(", "Color")]
+                idx = [i for i, t in enumerate(toks) if t == "(" and i + 5 < len(toks) and toks[i + 5] == ")" and all(is_number_token(x) for x in toks[i + 1:i + 5])]
                 t2 = list(toks)
                 t2[rng.choice(idx) + rng.randint(1, 4)] = word
                 out.append({"class": "badpoint/float-word", "text": " ".join(t2), "rows": None, "via": rng.choice(["stream", "file"])})
